@@ -2,7 +2,7 @@
 from driver import Inst
 
 O = dict(CONTENT=1, BEYOND=2, FLOW=4, TRIGGER=8, NOABORT=16, PROGRESS=32, END=64, REPEAT=128,
-         STORE=256, ACKCAD=512, FULLWIN=1024, RETRY=2048, REACK=4096)
+         STORE=256, ACKCAD=512, FULLWIN=1024, RETRY=2048, REACK=4096, REACK2=8192)
 K_TIMEOUT, K_ACK, K_DATA, K_ERROR, K_OACK = 1, 2, 4, 8, 16
 ALLK = 31
 
